@@ -8,7 +8,7 @@ import (
 	"github.com/markusressel/fan2go/internal/zzv"
 )
 
-//zzv:bound R1 = real restorePwmEnabled on a hwmon fan: original mode in {0,1,2,3,5}, original PWM any 0..255, current PWM register any 0..255, control-mode file present or not, the mode write succeeding / failing / silently ignored: whenever PWM writes are accepted the fan ends in its original mode (if that was not manual) or at PWM 255
+//zzv:bound R1 = real restorePwmEnabled on a hwmon fan: original mode in {0,1,2,3,5}, original PWM any 0..255, current PWM register any 0..255, fan limits (minPwm, maxPwm) any 0..255, neverStop on/off, control-mode file present or not, the mode write succeeding / failing / silently ignored: whenever PWM writes are accepted the fan ends in its original mode (if that was not manual) or at PWM 255
 //zzv:bound R2 = same with PWM writes failing or ignored as well: whenever the original mode is not verifiably restored the last PWM write attempted is 255
 //zzv:bound R3 = the real (*DefaultFanController).Run start-up followed by its real actor closures (oklog/run.Group.Run sequentialised): context cancellation at any tick <= 2 and a fatal control error (never-stop fan stalled at maximum) both end with the restore routine having run (device in original mode or at 255)
 //zzv:bound R4 = the real Run() on a hwmon fan without stored data whose initial analysis (real RunInitializationSequence: measurement loop over a three-entry configured map, settle loop included) fails because its result cannot be stored: Run returns the error after the restore routine has run
@@ -20,7 +20,8 @@ var zzModes = []int{0, 1, 2, 3, 5}
 func zzRestoreEnv() (*zzEnv, int, int) {
 	orig := zzModes[zzv.Choice("originalMode", len(zzModes))]
 	origPwm := zzRange("originalPwm", 0, 255)
-	e := zzNewFan(zzKindHwmon, false, true, zzv.Bool("hasModeFile"), true, zzRange("currentPwm", 0, 255), 1, 0)
+	e := zzNewFan(zzKindHwmon, zzv.Bool("neverStop"), true, zzv.Bool("hasModeFile"), true, zzRange("currentPwm", 0, 255), 1, 0)
+	zzHwmonLimits(e) // the fan's regulation range is not the range of the hardware: full speed is 255 whatever maxPwm says
 	e.zzController(zzLoop(0), 0, 1)
 	e.c.originalPwmEnabled = fans.ControlMode(orig)
 	e.c.originalPwmValue = origPwm
@@ -71,8 +72,16 @@ func ZZ_C03_R3_StopRestores() {
 		pwmValuesWithDistinctTarget: []int{}, controlLoop: zzLoop(0)}
 	e.c = c
 	ctx, cancel := zzv.NewContext()
-	zzv.CancelAfter(cancel, 3500) // native runs: start-up sleeps 2 s + 1 s before the first tick
-	zzv.SetTicks(2)
+	// when the termination arrives. Native runs: start-up sleeps 2 s, the control actor waits 1 s
+	// before its first tick. Window 0: inside that second (symbolically: no tick can be taken, so
+	// every select sees only the cancellation); window 1: while ticking (up to 2 ticks).
+	if zzv.Choice("cancelWindow", 2) == 0 {
+		zzv.CancelAfter(cancel, 2500)
+		zzv.SetTicks(0)
+	} else {
+		zzv.CancelAfter(cancel, 3500)
+		zzv.SetTicks(2)
+	}
 	err := c.Run(ctx)
 	zzv.Record("modeAfter", zzv.FilePeek(e.enablePath))
 	zzv.Record("pwmAfter", zzv.FilePeek(e.pwmPath))
